@@ -15,6 +15,7 @@ def templates(tier, seed=0):
         ts.append({'name': 'list-slice-%d' % n, 'src': 'xs := %s\nprint(xs[@h0@:@h1@])\n' % L})
         ts.append({'name': 'list-slice-open-%d' % n, 'src': 'xs := %s\nif @b0@ {\n    print(xs[:@h0@])\n} else {\n    print(xs[@h0@:])\n}\nprint(xs[:])\n' % L})
         ts.append({'name': 'list-index-assign-%d' % n, 'src': 'xs := %s\nxs[@h0@] = 99\nprint(xs)\n' % L})
+        ts.append({'name': 'list-index-opassign-%d' % n, 'src': 'xs := %s\nif @b0@ {\n    xs[@h0@] += 1\n} else {\n    xs[@h0@] -= @h1@\n}\nprint(xs)\n' % clist(n)})
         ts.append({'name': 'list-split-law-%d' % n, 'src': 'xs := %s\nk := @h0@\nprint((xs[:k] + xs[k:]) == xs)\n' % clist(n)})
         S = STRS[n]
         ts.append({'name': 'str-index-%d' % n, 'src': 's := "%s"\nprint(s[@h0@])\n' % S})
@@ -31,6 +32,7 @@ def templates(tier, seed=0):
     for n in range(0, N):
         for m in range(0, 3):
             ts.append({'name': 'concat-index-%d-%d' % (n, m), 'src': 'xs := %s\nys := %s\nzs := xs + ys\nprint(zs[@h0@])\nprint(zs == %s)\n' % (clist(n, 10), clist(m, 20), clist(n, 10)[:-1] + (', ' if n and m else '') + clist(m, 20)[1:])})
+    ts.append({'name': 'concat-empty-frame', 'src': 'xs := [1, 2, 3]\nys := xs + []\nys[@h0@] = 9\nprint(xs)\nprint(ys)\nzs := [] + xs\nzs[0:1] = [7]\nprint(xs)\n'})
     ts.append({'name': 'str-concat-index', 'src': 's := "ab" + "cde"\nprint(s[@h0@])\nprint(s[@h0@:])\n'})
     # strings with multi-byte characters: byte-indexed; observations avoid printing partial characters
     for i, s in enumerate(MB):
